@@ -373,7 +373,95 @@ fn constraint_ff_job(job: &Job, depth: usize, max_nodes: u64) -> (u64, u64, u64,
     (nodes, trans, spliced, None)
 }
 
+/// Special-token positions under a canonical tokenizer (the byte reference of `run_job` cannot follow a
+/// special token, so those jobs are inadmissible there). Oracle = the engine's own commit path: in a state
+/// where bytes are reported as forced, every token that `validate_tokens` accepts must be consistent with
+/// the forced text (an ordinary token's bytes prefix-comparable with it, a special token u only when the
+/// text starts with the marker spelling of u), and end-of-sequence must not be acceptable at all.
+fn special_forcing_pass(ctx: &Ctx) {
+    use rayon::prelude::*;
+    let mut v = crate::vocab::multi_vocab(b"abc", b"ab", 2, &[b"abc".as_slice(), b"bca".as_slice()], false).canonical(true);
+    v.tokens.pop();
+    let first_special = v.tokens.len() as u32;
+    for s in ["<a>", "<b>", "<c>"] {
+        let mut t = vec![0xFFu8];
+        t.extend_from_slice(s.as_bytes());
+        v.tokens.push(t);
+    }
+    v.tokens.push(crate::vocab::EOS_BYTES.to_vec());
+    v.eos = v.tokens.len() as u32 - 1;
+    v.name = format!("{}+3special", v.name);
+    let (s1, s2, s3) = (first_special, first_special + 1, first_special + 2);
+    let exprs: Vec<String> = vec!["<a>".into(), "<b>".into(), format!("<[{s1}]>"), format!("<[{s2}]>"), format!("<[{s1}-{s2}]>"), format!("<[{s2}-{s3}]>"), format!("<[{s1},{s3}]>"), format!("<[^0-{}]>", s1), format!("<[^0-{},{}]>", s1 - 1, v.eos)];
+    let mut grammars: Vec<String> = corpus::special_items().into_iter().filter_map(|i| match i.g { GrammarSpec::Lark(t) => Some(t), _ => None }).collect();
+    for (i, x) in exprs.iter().enumerate() {
+        grammars.push(format!("start: \"a\" {x} \"b\""));
+        for y in exprs.iter().skip(i + 1) {
+            grammars.push(format!("start: \"a\" ( {x} | {y} ) \"b\""));
+            grammars.push(format!("start: \"a\" ( {y} | {x} ) \"bc\""));
+            grammars.push(format!("start: \"a\" ( {x} | {y} | \"c\" ) \"b\""));
+        }
+    }
+    grammars.par_iter().for_each(|src| {
+        let Ok(f) = Factory::new(&v, &Slices::Default) else { return };
+        let g = GrammarSpec::Lark(src.clone());
+        let Ok(root) = f.try_matcher(&g) else {
+            ctx.count("special_forcing_grammars_refused", 1);
+            return;
+        };
+        ctx.count("special_forcing_grammars", 1);
+        let trie = f.env.tok_trie().clone();
+        let nv = f.n_vocab as u32;
+        let eos = trie.eos_token();
+        let cfg = ExploreCfg { max_depth: 6, max_states: 400, use_key: true };
+        let mut bad: Option<Violation> = None;
+        let st = explore(root, &cfg, |m, hist, _d| {
+            if m.is_stopped() || bad.is_some() {
+                return Some(vec![]);
+            }
+            let f_bytes = m.clone().compute_ff_bytes();
+            let accepted: Vec<u32> = (0..nv).filter(|u| m.clone().validate_tokens(&[*u]).unwrap_or(0) == 1).collect();
+            if !f_bytes.is_empty() {
+                ctx.count("special_forcing_states_with_forced_bytes", 1);
+                if f_bytes[0] == 0xFF {
+                    ctx.count("special_forcing_states_with_forced_special_token", 1);
+                }
+                for u in accepted.iter() {
+                    let ub = trie.token(*u);
+                    let consistent = if *u == eos {
+                        false
+                    } else if ub.first() == Some(&0xFF) {
+                        let mut spelled = vec![0xFFu8];
+                        spelled.extend_from_slice(format!("[{u}]").as_bytes());
+                        f_bytes.starts_with(&spelled)
+                    } else {
+                        !ub.is_empty() && (f_bytes.starts_with(ub) || ub.starts_with(&f_bytes))
+                    };
+                    if !consistent {
+                        bad = Some(Violation {
+                            check: "forced_text_vs_accepted_token".into(),
+                            class: "forced-byte-not-forced".into(),
+                            signature: format!("special-forcing|{}|{:?}|{}", src, hist, u),
+                            detail: json!({"kind": "engine_history", "grammar": g.to_json(), "vocab": v.to_json(), "slices": Slices::Default.to_json(), "history": hist,
+                                "what": {"forced_bytes": show(&f_bytes), "accepted_token": u, "accepted_token_bytes": show(ub), "all_accepted": accepted}}),
+                        });
+                        return None;
+                    }
+                }
+            }
+            Some(accepted.into_iter().filter(|u| *u != eos).collect())
+        });
+        ctx.states.fetch_add(st.states, Ordering::Relaxed);
+        ctx.transitions.fetch_add(st.transitions, Ordering::Relaxed);
+        ctx.validated.fetch_add(st.transitions, Ordering::Relaxed);
+        if let Some(b) = bad {
+            ctx.violation(b);
+        }
+    });
+}
+
 pub fn run(ctx: &Ctx) -> Coverage {
+    special_forcing_pass(ctx);
     let mut items = c13_items();
     items.extend(crate::gen::lark_family(ctx.tier.pick(3, 4)));
     let kinds: Vec<VKind> = if ctx.quick() { vec![VKind::Multi2Canon, VKind::Multi3Canon] } else { vec![VKind::Multi2Canon, VKind::Multi3Canon, VKind::B256Canon, VKind::TikCanon(500)] };
@@ -422,6 +510,6 @@ pub fn run(ctx: &Ctx) -> Coverage {
         ctx.machinery_error("vacuous run: no forced bytes / ff tokens seen");
     }
     Coverage::StateGraph {
-        rule: format!("lock-step BFS over pairs (canonical-tokenizer engine, single-byte reference engine on the same grammar), depth {depth}, <= {max_states} pairs per job; in every pair each reported forced byte must be the reference's only allowed byte, ff tokens must decode to a prefix of the forced bytes, commit, and leave the remainder pending; every mask token is validated byte-wise on the reference; plus process_prompt on every canonical prompt of <= 2 tokens; plus the sampling loop with the ff_tokens capability (Constraint) in lock step with a Matcher without it: same stop status and mask in every state, commit_token returns the sampled token followed by tokens that decode to a prefix of the bytes forced there and that the matcher accepts"),
+        rule: format!("lock-step BFS over pairs (canonical-tokenizer engine, single-byte reference engine on the same grammar), depth {depth}, <= {max_states} pairs per job; in every pair each reported forced byte must be the reference's only allowed byte, ff tokens must decode to a prefix of the forced bytes, commit, and leave the remainder pending; every mask token is validated byte-wise on the reference; plus process_prompt on every canonical prompt of <= 2 tokens; plus the sampling loop with the ff_tokens capability (Constraint) in lock step with a Matcher without it: same stop status and mask in every state, commit_token returns the sampled token followed by tokens that decode to a prefix of the bytes forced there and that the matcher accepts; plus the special-token pass: grammars whose positions name special tokens (singles, lists, ranges, negated sets, alone and in every pair of alternatives) under a canonical tokenizer, every reachable state: whenever text is reported as forced, every token the commit path accepts must be consistent with it and end-of-sequence must not be acceptable"),
     }
 }
